@@ -104,6 +104,18 @@ func (w *World) contractByName(pkg *types.Package, name string) *FuncContract {
 	return cf.Funcs[name]
 }
 
+// readOnlyGlobal: is pkgname.Var declared read-only in some loaded contract file?
+func (w *World) readOnlyGlobal(pkgName, name string) bool {
+	for _, cf := range w.contracts {
+		for _, r := range cf.ReadOnly {
+			if r == pkgName+"."+name {
+				return true
+			}
+		}
+	}
+	return false
+}
+
 func (w *World) findPred(name string) *PredDef {
 	for _, cf := range w.contracts {
 		if p, ok := cf.Preds[name]; ok {
